@@ -38,6 +38,7 @@ int main(int argc, char **argv)
 		long chunks[64]; int nch = kv_ints(&kv, "chunks", chunks, 64); long reps = kv_int(&kv, "reps", 1);
 		SM2_KEY key; memset(&key, 0, sizeof key); int rc = -99;
 		ent_seed((uint64_t)kv_int(&kv, "seed", 1));
+		{ size_t fl; uint8_t *first = kv_hex(&kv, "first", &fl); for (size_t o = 0; first && o + 32 <= fl; o += 32) ent_push32(first + o); }      // nonce values chosen by the script for the first 32-byte draws
 		if (!strcmp(op, "z")) {
 			uint8_t z[32] = {0}; size_t idlen = (size_t)kv_int(&kv, "idlen", (long)idl);
 			rc = setpub(&key, pub); if (rc == 1) rc = sm2_compute_z(z, &key.public_key, (char *)id, idlen);
@@ -68,19 +69,21 @@ int main(int argc, char **argv)
 				vt_begin("Sm2"); vt_int("id", kv_int(&kv, "id", 0)); vt_str("op", op); vt_str("iface", iface); vt_int("rep", r); vt_int("rc", rr); vt_bytes("sig", out, rr == 1 ? ol : 0); log_draws(d0); vt_end();
 			}
 		} else if (!strcmp(op, "encrypt")) {
-			rc = setpub(&key, pub); uint8_t out[512] = {0}; size_t ol = 0; long d0 = ent_draws(); long psize = kv_int(&kv, "psize", 69);
+			rc = setpub(&key, pub); uint8_t out[512] = {0}; size_t ol = 0; long d0 = ent_draws(); long psize = kv_int(&kv, "psize", 69); long slotused = -1;
 			if (rc == 1) {
 				if (!strcmp(iface, "der")) rc = sm2_encrypt(&key, msg, msgl, out, &ol);
 				else if (!strcmp(iface, "fixlen")) rc = sm2_encrypt_fixlen(&key, msg, msgl, (int)psize, out, &ol);
 				else if (!strcmp(iface, "do")) { SM2_CIPHERTEXT c; rc = sm2_do_encrypt(&key, msg, msgl, &c); if (rc == 1) { uint8_t *p = out; ol = 0; rc = sm2_ciphertext_to_der(&c, &p, &ol); } }
 				else if (!strcmp(iface, "pre")) {      // the pre-computed nonce table: slot `slot` of sm2_encrypt_pre_compute, used through sm2_do_encrypt_ex
 					SM2_ENC_PRE_COMP pre[SM2_ENC_PRE_COMP_NUM]; SM2_CIPHERTEXT c; long slot = kv_int(&kv, "slot", 0) % SM2_ENC_PRE_COMP_NUM; rc = sm2_encrypt_pre_compute(pre);
-					if (rc == 1) rc = sm2_do_encrypt_ex(&key, &pre[slot], msg, msgl, &c); if (rc == 1) { uint8_t *p = out; ol = 0; rc = sm2_ciphertext_to_der(&c, &p, &ol); } }
+					// 0 from sm2_do_encrypt_ex = "this nonce gives an all-zero key stream, take another one": the caller's loop
+					if (rc == 1) { do { rc = sm2_do_encrypt_ex(&key, &pre[slot], msg, msgl, &c); } while (rc == 0 && ++slot < SM2_ENC_PRE_COMP_NUM); slotused = slot; }
+					if (rc == 1) { uint8_t *p = out; ol = 0; rc = sm2_ciphertext_to_der(&c, &p, &ol); } }
 				else { SM2_ENC_CTX c; rc = sm2_encrypt_init(&c);
 					size_t off = 0; for (int i = 0; i <= nch && rc == 1; i++) { size_t n = i < nch ? (size_t)chunks[i] : msgl - off; if (off + n > msgl) n = msgl - off; if (n) rc = sm2_encrypt_update(&c, msg + off, n); off += n; }
 					if (rc == 1) rc = sm2_encrypt_finish(&c, &key, out, &ol); }
 			} else rc = -50;
-			vt_begin("Sm2"); vt_int("id", kv_int(&kv, "id", 0)); vt_str("op", op); vt_str("iface", iface); vt_int("rc", rc); vt_bytes("ct", out, rc == 1 ? ol : 0); log_draws(d0); vt_end();
+			vt_begin("Sm2"); vt_int("id", kv_int(&kv, "id", 0)); vt_str("op", op); vt_str("iface", iface); vt_int("rc", rc); vt_int("slotused", slotused); vt_bytes("ct", out, rc == 1 ? ol : 0); log_draws(d0); vt_end();
 		} else if (!strcmp(op, "decrypt")) {
 			rc = setpriv(&key, d); uint8_t out[512] = {0}; size_t ol = 0;
 			if (rc == 1) {
